@@ -6,7 +6,7 @@ import SpVerif.Lemmas.IndexTotal
 Theorems about the scan model `Bounds.axisRange` / `totalBounds` (`total_bounds_interleaved(_1d)`,
 `bounds_interleaved`): per axis the result is exactly (min, max) over the finite coordinates, NaN iff there is none;
 the total bounds are the NaN-ignoring union of the per-element rows (which is what the Dask fold, `GeoSeries` and the
-R-tree root compute), so every row lies inside the total bounds.
+index's `total_bounds` compute - not the root box of the tree, see the end of this file), so every row lies inside the total bounds.
 -/
 namespace SpVerif
 open Bounds
@@ -118,7 +118,7 @@ theorem C13_total_is_union_of_rows (vs ws : List (Coord × Coord)) :
   simp only [totalBounds, Row.union, List.map_append, C13_range_append]
 
 /-- the fold over any list of element rows (what `DaskGeoSeries.total_bounds`, `np.nanmin/nanmax` over partition bounds,
-and the R-tree's bottom-up union compute) equals the bounds of all vertices together -/
+and `HilbertRtree.total_bounds` (see `C13_index_total_bounds`) compute) equals the bounds of all vertices together -/
 theorem C13_fold_of_rows (els : List (List (Coord × Coord))) :
     (els.map totalBounds).foldl Row.union Row.empty = totalBounds els.flatten := by
   have gen : ∀ (acc : List (Coord × Coord)), (els.map totalBounds).foldl Row.union (totalBounds acc) = totalBounds (acc ++ els.flatten) := by
